@@ -77,6 +77,8 @@ mod macros;
 mod params;
 mod parse;
 mod pearson;
+#[cfg(fast_tlsh_verif)]
+pub mod verif_hooks;
 
 // Easy function re-exports
 #[cfg(feature = "easy-functions")]
